@@ -31,7 +31,7 @@ func TestZsimC08(t *testing.T) {
 		Post:     c08Post,
 		Horizon:  3 * time.Hour,
 		MaxSteps: 300000,
-		Rule:     "period limiter: 1-4 tasks Take on 1-3 keys in rounds, server clock advanced between rounds (inside / at / beyond the window, Align on/off); token limiter: AllowN(now,n) by 1-3 tasks with caller seconds non-decreasing and server time in lock-step or slower; outage class: network cut at a drawn point (refused dials, reset connections), hammering, heal; histories checked with porcupine against a counter-with-expiry / token-bucket model in server order; non-trivial = a window expired or the quota was exceeded or an outage was injected; distinct = distinct event-log fingerprint",
+		Rule:     "period limiter: 1-4 tasks Take on 1-3 keys in rounds (one take in eight by a caller that has given up: context already cancelled), server clock advanced between rounds (inside / at / beyond the window, Align on/off); token limiter: AllowN(now,n) by 1-3 tasks with caller seconds non-decreasing and server time in lock-step or slower, some callers carrying the previous round's clock reading while the server clock stands still; outage class: network cut at a drawn point (refused dials, reset connections), hammering, heal; histories checked with porcupine against a counter-with-expiry / token-bucket model in server order; non-trivial = a window expired or the quota was exceeded or an outage was injected; distinct = distinct event-log fingerprint",
 		Real:     []string{"lib/limit PeriodLimit, TokenLimiter (rescue limiter, Redis monitor)", "lib/store/redis wrapper + breaker", "go-redis client", "miniredis command + Lua engine", "golang.org/x/time/rate"},
 		Stub:     []string{"caller tasks", "caller and server clocks", "network (net.Pipe transport with cut/heal)"},
 	})
